@@ -276,7 +276,8 @@ impl Prop for C02 {
     }
     fn explore(&self, ctx: &Ctx, findings: &Findings, ev: &mut Evidence) -> Result<(), String> {
         let q = ctx.tier == Tier::Quick;
-        let bases = base_requests(!q);
+        let _ = q;
+        let bases = base_requests(true);
         // phase 1: one accepted message per base request
         let proved = par_map(&bases, ncpu(), |_, r| {
             with_rln(|rln| {
